@@ -7,6 +7,7 @@
   "For all `Orders` that are `Valid`" therefore reads "for all hash-iteration orders".
 -/
 import RumaModel.Lemmas.StateResStages
+import RumaModel.Lemmas.StateResWitness
 namespace Ruma.Props.C06
 open Ruma Ruma.StateRes Ruma.Spec.StateResV2
 
@@ -25,7 +26,10 @@ theorem tieBreaker_strictTotal : StrictTotal TB.lt := tbLt_strictTotal
 /-- **lexTopoSort_perm.** Permuting the node list and every adjacency list of the graph (any other
 iteration order of the same `HashMap<Id, HashSet<Id>>`), and iterating the internal
 `reverse_graph` sets in any order, does not change the output of the sort — for every graph with
-distinct node keys (cycles and dangling edges included) and every total key function. -/
+distinct node keys (cycles and dangling edges included) and every key function that is defined on
+every node of the graph (hypothesis `hk`: `key n = some (kf n)` for each node, i.e. the
+`(power level, origin_server_ts)` look-up succeeds for every node; where it fails the code returns
+an error, which is not what this theorem is about). -/
 theorem lexTopoSort_perm {g g' : Graph} (hg : g.nodes.Nodup) (hp : GraphPerm g g')
     {psh psh' : Id → List Id → List Id} (hpsh : ∀ n l, (psh n l).Perm l)
     (hpsh' : ∀ n l, (psh' n l).Perm l) {key : Id → Option (Int × Int)} {kf : Id → Int × Int}
@@ -111,8 +115,8 @@ theorem powerSort_perm (p : Params) {o o' : Orders} (ho : o.Valid) (ho' : o'.Val
   rw [powerSort_eq ho hA hctl hwf G inv.nodup hGn hGe,
     powerSort_eq ho' hA' hctl' (fun n hn => hwf n ((hAA n).mpr hn)) G inv.nodup hGn' hGe']
 
-/-- The hypothesis `EventWF` of `powerSort_perm` / `RoomWF` of `resolve_perm` is satisfiable: a
-topic event citing the create event, a membership and a power-levels event. -/
+/-- The per-event hypothesis `EventWF` of `powerSort_perm` is satisfiable: a topic event citing the
+create event, a membership and a power-levels event. (`RoomWF` of a whole room: next example.) -/
 example :
     let c0 : Event := { eventId := bs "$c", roomId := bs "!r", sender := bs "@a", type := tCreate,
                         stateKey := some [], content := [] }
@@ -125,6 +129,16 @@ example :
     EventWF (fetchOf [c0, m, pl, t]) c0 t := by
   intro c0 m pl t
   exact ⟨⟨by decide, by decide⟩, by rfl⟩
+
+/-- The room hypothesis `RoomWF` of `resolve_perm` (together with `SetsWF` and duplicate-free
+chains) is satisfiable on a room in which there really is something to resolve: the F4 witness room
+(`Lemmas/StateResWitness.lean`: two state sets that disagree on the topic, `$t1` against `$t2`) has
+the non-empty full conflicted set `[$t1, $t2]` and satisfies all three hypotheses. -/
+example :
+    RoomWF F4Witness.store F4Witness.sets F4Witness.chains F4Witness.c ∧
+    fullConflictedSet (fetchOf F4Witness.store) F4Witness.sets F4Witness.chains = [bs "$t1", bs "$t2"] ∧
+    SetsWF F4Witness.sets ∧ (∀ c ∈ F4Witness.chains, c.Nodup) :=
+  ⟨F4Witness.roomWF, F4Witness.fullConf_eq, F4Witness.setsWF, by decide +kernel⟩
 
 /-- **resolve_perm.** For every room that satisfies `WF` (`RoomWF`), all iteration orders `o`, `o'`
 of the hash containers, every permutation of the state-set argument and of each state map, and
